@@ -61,7 +61,7 @@ def run(ctx):
         ctx.check(nr == (not r), "!= is not the negation of ==", desc)
         return r
 
-    n = 5 if ctx.quick else 1500
+    n = 5 if ctx.quick else 150
     for it in range(n):
         kind = shapes.DEFINED[it % len(shapes.DEFINED)]
         S, d = shapes.make(rng, kind, rng.randint(-3, 3), rng.randint(-3, 3), drv)
@@ -80,6 +80,29 @@ def run(ctx):
             j.split([rng.randrange(k), rng.randrange(k)], [F(1, 2), F(1, 3)])
         reps.append(("split", sp))
         reps.append(("double-complement", ~(~S)))
+        # the same region reached through a history of queries and in-place operations (warm caches, in-place complement, …)
+        for _ in range(2):
+            Y, h = shapes.vary_history(rng, rebuild(d), d)
+            reps.append(("history:" + h, Y))
+        if d[0] == "S":
+            for h in ("invert-twice", "complement-inverted-in-place"):
+                Y, _h = shapes.vary_history(rng, rebuild(d), d, variant=h)
+                reps.append(("history:" + h, Y))
+        # float coordinates, refined in place at parameters that are not mid-points (what an operator leaves behind)
+        if floatable(d):
+            Yf = rebuild(d, rep="float")
+            for j in Yf.jordans:
+                k = len(j.segments)
+                j.split([rng.randrange(k), rng.randrange(k), rng.randrange(k)], [1 / 3, 0.3, 0.7])
+            reps.append(("float-split-off-centre", Yf))
+            # used as an operand of a crossing operator (splits it in place), compared with a copy taken before
+            Yo = rebuild(d, rep="float")
+            cutter = shapes.simple([(float(x) + 0.37, float(y) + 0.21) for x, y in shapes.desc_points(d)[:3]])
+            try:
+                Yo | cutter; Yo & cutter
+            except Exception:
+                pass
+            reps.append(("float-after-being-an-operand", Yo))
         for name, Y in reps:
             ctx.case("equal-representation", (repr(d), name))
             ctx.count("rep:" + name)
@@ -111,7 +134,7 @@ def run(ctx):
             if r is not None:
                 ctx.check(r == exp, "== disagrees with (same kind and same region)", {**desc, "other": name}, exp, r)
     # ---- closed curves
-    for it in range(5 if ctx.quick else 600):
+    for it in range(5 if ctx.quick else 200):
         while True:
             vs = shapes.rand_simple_vs(rng, 0, 0, R=6)
             if drv.ask("genpos 1 " + core.epoly(vs)) == "T":
